@@ -293,7 +293,8 @@ def adc(img, gain, saturation_capacity=None, warn_saturate=False, dtype=None):
     reached.
 
     """
-    img = np.asarray(img)
+    # copy so the saturation clip below does not modify the caller's frame
+    img = np.array(img)
 
     # Enforce saturation capacity
     if saturation_capacity:
